@@ -236,7 +236,28 @@ func c01Traffic(p *l3.Proc, r *vlib.Rand, led *c01Ledger, gen int, crash c01Cras
 						op, body["dead"], body["reason"] = "nack", true, "verif_dead"
 					}
 					// the route in the URL does not matter for the lease; use p1
+					var dupResp *l3.Resp
+					var dupWG sync.WaitGroup
+					if len(leases) == 1 && cr.Chance(0.35) {
+						// a client retry racing the original: the same request again 1-3ms later;
+						// whichever answer says "done" is an acknowledgement like any other
+						dupWG.Add(1)
+						delay := time.Duration(cr.Range(1, 3)) * time.Millisecond
+						go func() {
+							defer dupWG.Done()
+							time.Sleep(delay)
+							r2 := p.Pull("/pull/p1/"+op, body, "tok")
+							dupResp = &r2
+						}()
+					}
 					resp := p.Pull("/pull/p1/"+op, body, "tok")
+					dupWG.Wait()
+					if dupResp != nil {
+						c01DupSettles.Add(1)
+						if dupResp.Err == nil && (dupResp.Status == 204 || dupResp.Status == 200) && !(resp.Err == nil && (resp.Status == 204 || resp.Status == 200)) {
+							resp = *dupResp // the duplicate was told "done"
+						}
+					}
 					perLease := map[string]string{}
 					switch {
 					case resp.Err != nil:
@@ -285,6 +306,8 @@ func c01Traffic(p *l3.Proc, r *vlib.Rand, led *c01Ledger, gen int, crash c01Cras
 	}
 	wg.Wait()
 }
+
+var c01DupSettles atomic.Int64
 
 // c01Audit compares the post-restart listing with the ledger.
 func c01Audit(c *vlib.Ctx, label string, crash c01Crash, led *c01Ledger, msgs []l3.Message) {
@@ -515,7 +538,14 @@ func c01Trial(c *vlib.Ctx, root string, idx int, crashes []c01Crash) {
 		env := []string{"VERIF_SQLITE_CHECKPOINT_INTERVAL=40ms"}
 		killLog := filepath.Join(dir, fmt.Sprintf("kill%d.log", gen))
 		if crash.Kind == "point" {
-			env = append(env, fmt.Sprintf("VERIF_POINTS=%s=kill@%d", crash.Point, crash.Hit), "VERIF_POINTS_LOG="+killLog)
+			pts := fmt.Sprintf("%s=kill@%d", crash.Point, crash.Hit)
+			switch crash.Point {
+			case "sqlite.commit.before", "sqlite.commit.after", "pull.ack.before_reply", "pull.nack.before_reply":
+				// keep every lease mutation open for a while before its commit, so that
+				// a racing duplicate of the same request is answered inside that window
+				pts += ",sqlite.lease.after_mutate=sleep:6ms@*"
+			}
+			env = append(env, "VERIF_POINTS="+pts, "VERIF_POINTS_LOG="+killLog)
 		}
 		startupKill := false
 		if err := p.StartHealthy(l3.StartOpts{Env: env}, 60*time.Second); err != nil {
@@ -715,6 +745,7 @@ func C01(c *vlib.Ctx) {
 	}
 	parallel(len(jobs), 8, func(k int) { c01Trial(c, root, jobs[k].idx, jobs[k].crashes) })
 	c01StartupCrashes(c, root)
+	c.Set("duplicate_settle_races", c01DupSettles.Load())
 	c01Strace(c, root)
 	if c.Counter("restart_audits") == 0 {
 		c.Inconclusive("C01: no restart audit completed")
